@@ -19,6 +19,7 @@ before it (or free Verus text when outside an @extract block).
     @before "PREFIX" [#K] / payload      insert before K-th statement starting with PREFIX
     @after "PREFIX" [#K] / payload       insert after that (';'-terminated) statement
     @atend / payload                     insert just before the closing brace of the fn body
+    @beforeloop|@afterloop|@loopstart|@loopend ORD / payload   around / inside the ORD-th loop
     @rule R1 loop ORD iter NAME          for-desugaring over an external iterator
     @rule R2                             `.map(Self)`/`.map(Ctor)` eta-expansion (payload: closure text per match)
     @rule R3 loop ORD index NAME         iter_mut loop -> index loop
@@ -387,6 +388,12 @@ class Extractor:
                     continue
                 lp = find_loop(d, ordstr)
                 add(lp["open"], lp["open"], "\n" + d.text() + "\n", ("ins", cur_label, "loop " + ordstr, d.line))
+            elif n in ("beforeloop", "afterloop", "loopstart", "loopend"):
+                need_fn(d)
+                lp = find_loop(d, d.arg.strip())
+                pos = {"beforeloop": lp["kw_pos"], "afterloop": lp["close"] + 1,
+                       "loopstart": lp["open"] + 1, "loopend": lp["close"]}[n]
+                add(pos, pos, "\n" + d.text() + "\n", ("ins", cur_label, n + " " + d.arg.strip(), d.line))
             elif n == "before":
                 need_fn(d)
                 idx, pos = find_stmt(d, d.arg)
